@@ -797,12 +797,12 @@ func (p *printer) expr1(expr ast.Expr, prec1, depth int) {
 			// parenthesis needed
 			p.print(token.LPAREN)
 			p.print(token.MUL)
-			p.expr(x.X)
+			p.expr1(x.X, prec, depth)
 			p.print(token.RPAREN)
 		} else {
 			// no parenthesis needed
 			p.print(token.MUL)
-			p.expr(x.X)
+			p.expr1(x.X, prec, depth)
 		}
 
 	case *ast.UnaryExpr:
@@ -1074,13 +1074,27 @@ func (p *printer) expr1(expr ast.Expr, prec1, depth int) {
 			p.print(token.RBRACE)
 		}
 	case *ast.ErrWrapExpr:
-		p.expr(x.X)
+		// x! and x? bind like a primary-expression suffix; x?:d binds like a unary operator
+		paren := x.Default != nil && token.UnaryPrec < prec1
+		if paren {
+			p.print(token.LPAREN)
+		}
+		p.expr1(x.X, token.HighestPrec, depth)
 		p.print(x.Tok)
 		if x.Default != nil {
 			p.print(token.COLON)
-			p.expr(x.Default)
+			p.expr1(x.Default, token.UnaryPrec, depth)
+		}
+		if paren {
+			p.print(token.RPAREN)
 		}
 	case *ast.LambdaExpr:
+		if token.LowestPrec < prec1 { // a lambda as an operand needs parentheses
+			p.print(token.LPAREN)
+			p.expr1(x, token.LowestPrec, depth)
+			p.print(token.RPAREN)
+			break
+		}
 		if x.LhsHasParen {
 			p.print(token.LPAREN)
 			p.identList(x.Lhs, false)
@@ -1099,6 +1113,12 @@ func (p *printer) expr1(expr ast.Expr, prec1, depth int) {
 		}
 
 	case *ast.LambdaExpr2:
+		if token.LowestPrec < prec1 { // a lambda as an operand needs parentheses
+			p.print(token.LPAREN)
+			p.expr1(x, token.LowestPrec, depth)
+			p.print(token.RPAREN)
+			break
+		}
 		if x.LhsHasParen {
 			p.print(token.LPAREN)
 			p.identList(x.Lhs, false)
